@@ -70,6 +70,9 @@ pub struct Found {
     pub engine: String,
     pub payload: Value,
     pub shrink_runs: u64,
+    /// "concrete" (generator-independent payload) or "case" (generator-level value)
+    #[serde(default)]
+    pub level: String,
 }
 
 #[derive(Debug, Clone, Default, Serialize, Deserialize)]
@@ -223,7 +226,22 @@ pub fn campaign<E: Engine>(
         };
         let case = tree.current();
         inflight.set(e.name(), &case);
-        let cr = e.run(&case);
+        let cr = match std::panic::catch_unwind(std::panic::AssertUnwindSafe(|| e.run(&case))) {
+            Ok(cr) => cr,
+            Err(p) => {
+                // a panic that escaped every tolerated place: an in-domain generated call
+                // panicked where the harness expects none
+                let msg = crate::interp::panic_text(p);
+                rep.found.push(Found {
+                    failure: Failure { prop: String::new(), kind: "uncaught_panic".into(), step: 0, detail: format!("a generated in-domain case panicked outside any tolerated call: {msg}") },
+                    engine: e.name().to_string(),
+                    payload: serde_json::to_value(&case).unwrap_or(Value::Null),
+                    shrink_runs: 0,
+                    level: "case".into(),
+                });
+                break;
+            }
+        };
         rep.cases += 1;
         rep.evaluations += cr.evaluations.max(1);
         for ev in &cr.events {
@@ -269,7 +287,12 @@ pub fn campaign<E: Engine>(
                     runs += 1;
                     let c = tree.current();
                     inflight.set(e.name(), &c);
-                    let r = e.run(&c);
+                    let Ok(r) = std::panic::catch_unwind(std::panic::AssertUnwindSafe(|| e.run(&c))) else {
+                        if !tree.complicate() {
+                            break;
+                        }
+                        continue;
+                    };
                     let still = r.failure.as_ref().is_some_and(|x| x.kind == kind);
                     if still {
                         best = (r.failure.unwrap(), r.payload.unwrap_or(Value::Null));
@@ -284,7 +307,7 @@ pub fn campaign<E: Engine>(
             // then on the concrete case
             let payload = e.minimise(best.1.clone(), &kind);
             let failure = e.replay(&payload).filter(|x| x.kind == kind).unwrap_or(best.0);
-            rep.found.push(Found { failure, engine: e.name().to_string(), payload, shrink_runs: runs });
+            rep.found.push(Found { failure, engine: e.name().to_string(), payload, shrink_runs: runs, level: "concrete".into() });
             break;
         }
     }
